@@ -358,8 +358,8 @@ static std::string oracle_words(std::set<pat_key> const &ps,std::set<std::string
 			int acount=0; pcre_fullinfo(c->second.anch,0,PCRE_INFO_CAPTURECOUNT,&acount);
 			std::vector<int> ov((acount+1)*3,0);
 			int rc=pcre_exec(c->second.anch,0,s.data(),int(s.size()),0,PCRE_ANCHORED,&ov[0],int(ov.size()));
+			if(rc<=0) continue; // "no match" is the default answer of the table: only matches are listed
 			out<<" O "<<tok(c->first)<<" "<<hex(s)<<" ";
-			if(rc<=0) { out<<"n"; continue; }
 			for(int i=0;i<rc;i++) {
 				if(i) out<<",";
 				out<<ov[2*i]<<"."<<ov[2*i+1];
@@ -525,6 +525,7 @@ static cppcms::json::value service_config(bool url_throws=true)
 	cfg["service"]["socket"]="c20-unused.sock"; // never opened: the service is not run
 	cfg["misc"]["invalid_url_throws"]=url_throws; // false is the default of cppcms: real_map then builds the URL in a steal_buffer<>
 	cfg["http"]["script"]="/s";
+	cfg["logging"]["stderr"]=false; // every service adds a sink to the global logger (never removed): one service per P case would make stderr quadratic
 	cfg["localization"]["locales"][0]="en_US.UTF-8"; // request text is UTF-8 (validate_encoding of typed parameters)
 	return cfg;
 }
